@@ -28,6 +28,8 @@ type trackFile struct {
 	data            bytes.Buffer
 	closes          int
 	writeAfterClose int
+	// closeErr: what Close returns AFTER it has closed (a sink whose close reports a late write-back error)
+	closeErr error
 }
 
 func (f *trackFile) Write(p []byte) (int, error) {
@@ -48,14 +50,22 @@ func (f *trackFile) WriteString(s string) (int, error) { return f.Write([]byte(s
 func (f *trackFile) Close() error {
 	f.mu.Lock()
 	f.closes++
+	cerr := f.closeErr
 	f.mu.Unlock()
 	if f.File != nil {
-		return f.File.Close()
+		if err := f.File.Close(); err != nil {
+			return err
+		}
 	}
-	return nil
+	return cerr
 }
 
+// snapshot of a destination that may never have been created (an aggregator that opens its file lazily and got no
+// sample): nothing written, nothing to close
 func (f *trackFile) snapshot() (data []byte, closedOK bool) {
+	if f == nil {
+		return nil, true
+	}
 	f.mu.Lock()
 	defer f.mu.Unlock()
 	return append([]byte(nil), f.data.Bytes()...), f.closes == 1 && f.writeAfterClose == 0
@@ -63,7 +73,8 @@ func (f *trackFile) snapshot() (data []byte, closedOK bool) {
 
 type trackFs struct {
 	afero.Fs
-	file *trackFile
+	file     *trackFile
+	closeErr error
 }
 
 func newTrackFs() *trackFs { return &trackFs{Fs: afero.NewMemMapFs()} }
@@ -73,7 +84,7 @@ func (t *trackFs) Create(name string) (afero.File, error) {
 	if err != nil {
 		return nil, err
 	}
-	t.file = &trackFile{File: f}
+	t.file = &trackFile{File: f, closeErr: t.closeErr}
 	return t.file, nil
 }
 
